@@ -763,7 +763,19 @@ def _label_sites(p: SX.Path, labels: str) -> List[Tuple[ast.expr, List[ast.expr]
                 else:
                     complete = False
             tup = SX.subst(comp.elt, env)
-        out.append((tup, its, complete, conds, e))
+        # a label chosen by a conditional expression: one site per branch, with the decision of its test
+        todo = [(tup, conds)]
+        while todo:
+            t, cs = todo.pop(0)
+            if isinstance(t, ast.IfExp):
+                atom, pol = SX.canon_atom(t.test)
+                known = next((v for k, v, _ in cs if k == norm(atom)), None)
+                for val, branch in ((True, t.body), (False, t.orelse)):
+                    if known is not None and known != (val == pol):
+                        continue
+                    todo.append((branch, cs if known is not None else cs + [(norm(atom), val == pol, atom)]))
+                continue
+            out.append((t, its, complete, cs, e))
     return out
 
 
@@ -1188,6 +1200,16 @@ def _find_atom_name(e: ast.expr, var: str) -> Optional[str]:
     return None
 
 
+def _module_lookup(fi: FuncInfo, e: ast.expr) -> bool:
+    """`NAME[key]` / `NAME.get(key)` on a module-level container"""
+    base = None
+    if isinstance(e, ast.Subscript) and isinstance(e.value, ast.Name):
+        base = e.value.id
+    elif isinstance(e, ast.Call) and isinstance(e.func, ast.Attribute) and e.func.attr == "get" and isinstance(e.func.value, ast.Name):
+        base = e.func.value.id
+    return base is not None and base in fi.module.consts and base not in {a.arg for a in fi.node.args.args}
+
+
 # ---------------------------------------------------------------------------------------------------------------------
 # detect_cis_trans
 # ---------------------------------------------------------------------------------------------------------------------
@@ -1202,6 +1224,7 @@ def check_cis_trans(chk, fi: FuncInfo, fold, c: Dict[str, Any]) -> None:
     paths = SX.Executor(rewrite=idioms).run(fi.node.body)
     rets = [p for p in paths if p.exit in ("return", "fall")]
     letters_ret = {}
+    stored = 0
     for p in rets:
         v = p.ret.value if isinstance(p.ret, ast.Constant) else ("<none>" if p.ret is None else None)
         if p.exit == "fall":
@@ -1209,6 +1232,10 @@ def check_cis_trans(chk, fi: FuncInfo, fold, c: Dict[str, Any]) -> None:
             letters_ret.setdefault("None", []).append(p)
         elif isinstance(p.ret, ast.Constant):
             letters_ret.setdefault(repr(p.ret.value), []).append(p)
+        elif _module_lookup(fi, p.ret):
+            # an answer read back from a module-level container: what it holds was computed on the other paths (whether the key
+            # identifies the computation is the cross-cutting rule memo-key-state)
+            stored += 1
         else:
             raise NotReadable(f"detect_cis_trans returns `{norm(p.ret)[:60]}`")
     got = set(letters_ret) - {"None"}
